@@ -1077,7 +1077,8 @@ class Circuit(Function):
         """
 
         def _replace_inputs(inputs: tp.Sequence[gate.Label], new_type: gate.GateType):
-            for input_label in inputs:
+            # `inputs` may be this circuit's own input list, which shrinks below.
+            for input_label in list(inputs):
                 if self.get_gate(input_label).gate_type != gate.INPUT:
                     raise GateNotInputError()
                 self._gates[input_label] = gate.Gate(input_label, new_type)
